@@ -47,7 +47,8 @@ func (c *CoffCase) source(withFormat bool) string {
 }
 
 func (c *CoffCase) Reqs() []Req {
-	return []Req{{Src: []byte(c.source(true))}, {Src: []byte(c.source(false))}}
+	// the object is produced twice in the same process: the second one must be as good as the first
+	return []Req{{Src: []byte(c.source(true))}, {Src: []byte(c.source(false))}, {Src: []byte(c.source(true))}}
 }
 
 func (c *CoffCase) Judge(rs []Res, env *Env) Outcome {
@@ -61,6 +62,10 @@ func (c *CoffCase) Judge(rs []Res, env *Env) Outcome {
 	}
 	obj, flat := rs[0].Out, rs[1].Out
 	src := c.source(true)
+	if len(rs) > 2 && !bytes.Equal(rs[2].Out, obj) {
+		// judge the repeated object: it is the one that differs
+		obj = rs[2].Out
+	}
 	f := ParseCoff(obj)
 	fail := func(kind, detail string) Outcome {
 		o.Status = Violated
